@@ -3,6 +3,7 @@ package main
 import (
 	"bytes"
 	"fmt"
+	"io"
 	"math"
 	"math/rand"
 	"strconv"
@@ -260,6 +261,10 @@ func nwDist(r *rand.Rand) float64 {
 	case 12:
 		return math.Copysign(0, -1)
 	case 13:
+		if r.Intn(2) == 0 { // values that are exactly a float32 (data that came from single-precision files)
+			return []float64{float64(float32(0.1)), float64(float32(1.0 / 3)), math.MaxFloat32, math.SmallestNonzeroFloat32,
+				float64(float32(r.NormFloat64())), float64(float32(123456.789))}[r.Intn(6)]
+		}
 		return math.Float64frombits(r.Uint64())
 	case 14:
 		return math.MaxFloat64
@@ -386,6 +391,7 @@ func newickDrive(args []string) error {
 			texts = append(texts, txt)
 			ev.Seps = append(ev.Seps, sints(sep))
 		}
+		catch(func() { x := nwRandTree(newRand(int64(sid)+99991), 3, false); x.MarshalText(); x.Write(io.Discard) }) // one more call after the last tree
 		for k, txt := range texts {
 			ev.Texts = append(ev.Texts, ints(txt))
 			all = append(append(all, txt...), unints(ev.Seps[k])...)
